@@ -7,6 +7,7 @@ import (
 	"github.com/named-data/ndnd/dv/table"
 	"github.com/named-data/ndnd/dv/tlv"
 	enc "github.com/named-data/ndnd/std/encoding"
+	"github.com/named-data/ndnd/std/ndn"
 )
 
 // Verification hooks for property C18 (wrappers and accessors only; no behaviour change).
@@ -90,4 +91,25 @@ func (dv *Router) Vf18RibUpdateNs(ns *table.NeighborState) { dv.ribUpdate(ns) }
 // Vf18Consts returns the package-level constants the C18 model depends on, as the compiler evaluates them.
 func Vf18Consts() map[string]uint64 {
 	return map[string]uint64{"CostInfinity": config.CostInfinity}
+}
+
+// Vf18OnSyncInterest runs the Sync Interest handler synchronously (the registered handler does
+// `go dv.advertSyncOnInterest(args, active)`).
+func (dv *Router) Vf18OnSyncInterest(args ndn.InterestHandlerArgs, active bool) {
+	dv.advertSyncOnInterest(args, active)
+}
+
+// Vf18OnAdvertData runs the advertisement Data handler synchronously (advertDataFetch's Express callback does
+// `dv.advertDataHandler(args.Data)` in a goroutine); the handler itself starts `go dv.ribUpdate(ns)`.
+func (dv *Router) Vf18OnAdvertData(data ndn.Data) { dv.advertDataHandler(data) }
+
+// Vf18NeighborSeq returns the latest advertisement sequence number known for a neighbour.
+func (dv *Router) Vf18NeighborSeq(name enc.Name) (uint64, bool) {
+	dv.mutex.Lock()
+	defer dv.mutex.Unlock()
+	ns := dv.neighbors.Get(name)
+	if ns == nil {
+		return 0, false
+	}
+	return ns.AdvertSeq, true
 }
